@@ -10,3 +10,4 @@ pub mod stream;
 pub mod util;
 pub mod grammar;
 pub mod alpide;
+pub mod rules;
